@@ -10,6 +10,7 @@ package sched
 import (
 	"fmt"
 	"sort"
+	"strings"
 	"sync"
 
 	"verif/mcx"
@@ -25,6 +26,8 @@ type thread struct {
 	waiting string
 	vc      []int
 	panicv  any
+	pc      int    // points passed
+	obs     uint64 // hash of everything the thread has observed at its points
 }
 
 type access struct {
@@ -49,6 +52,8 @@ type S struct {
 	objVC    map[any][]int
 	mutex    map[any]int // shadow owner (thread id+1), 0 = free; RWMutex: -n = n readers
 	once     map[any]int // 0 not run, 1 running, 2 done
+	closed   map[any]bool
+	chanQ    map[any][]uint64 // per channel: observation hashes of the senders of the queued items
 	Races    []string
 	Deadlock string
 	Points   int
@@ -81,9 +86,25 @@ func (s *S) enabled() []*thread {
 
 // Run executes all threads to completion (or deadlock) under the chooser.
 func (s *S) Run() {
-	n := len(s.threads)
 	for _, t := range s.threads {
-		t.vc = make([]int, n)
+		t.vc = make([]int, maxThreads)
+	}
+	for _, t := range s.threads {
+		s.launch(t)
+	}
+	s.loop()
+}
+
+const maxThreads = 16
+
+func (s *S) launch(t *thread) {
+	if t.id >= maxThreads {
+		panic("sched: too many threads")
+	}
+	if t.vc == nil {
+		t.vc = make([]int, maxThreads)
+	}
+	{
 		t := t
 		go func() {
 			<-t.resume
@@ -98,6 +119,74 @@ func (s *S) Run() {
 			t.body()
 		}()
 	}
+}
+
+// Spawn starts a new thread from inside a running one (goroutines started by the code under test).
+func (s *S) Spawn(name string, body func()) {
+	parent := s.cur
+	t := &thread{id: len(s.threads), name: fmt.Sprintf("%s#%d", name, len(s.threads)), body: body, resume: make(chan struct{})}
+	t.vc = make([]int, maxThreads)
+	if parent != nil {
+		parent.vc[parent.id]++
+		copy(t.vc, parent.vc) // everything the parent did before the go statement happens before the child
+	}
+	s.threads = append(s.threads, t)
+	s.launch(t)
+}
+
+// Block is a scheduling point of the running thread that can only be passed once ready() holds.
+func (s *S) Block(ready func() bool, what string) {
+	t := s.cur
+	if t == nil {
+		return
+	}
+	s.Points++
+	t.waiting = what
+	t.ready = ready
+	s.pause(t)
+}
+
+// Chan performs a channel operation of the code under test under the scheduler (buffered channels).
+func (s *S) Chan(op string, ch any, length func() int, capacity int, try func() bool) bool {
+	t := s.cur
+	if t == nil {
+		return false
+	}
+	if capacity == 0 && op != "close" {
+		panic("verif: unbuffered channel operation is not modelled by the scheduler")
+	}
+	if s.closed == nil {
+		s.closed = map[any]bool{}
+	}
+	if s.chanQ == nil {
+		s.chanQ = map[any][]uint64{}
+	}
+	switch op {
+	case "send":
+		s.Block(func() bool { return length() < capacity || s.closed[ch] }, "channel send")
+		s.release(t, ch)
+		s.chanQ[ch] = append(s.chanQ[ch], t.obs)
+	case "recv":
+		s.Block(func() bool { return length() > 0 || s.closed[ch] }, "channel receive")
+		if q := s.chanQ[ch]; len(q) > 0 {
+			t.obs = mix(t.obs, q[0]) // what is received is determined by what the sender had seen
+			s.chanQ[ch] = q[1:]
+		}
+	case "close":
+		s.Block(func() bool { return true }, "channel close")
+		s.release(t, ch)
+		s.closed[ch] = true
+	}
+	if !try() {
+		panic("verif: channel operation that the scheduler considered ready would block")
+	}
+	if op == "recv" {
+		s.acquire(t, ch)
+	}
+	return true
+}
+
+func (s *S) loop() {
 	for {
 		en := s.enabled()
 		if len(en) == 0 {
@@ -128,8 +217,38 @@ func (s *S) Run() {
 	}
 }
 
+func mix(h uint64, v uint64) uint64 {
+	h ^= v + 0x9e3779b97f4a7c15 + (h << 6) + (h >> 2)
+	return h
+}
+
+// Observe folds a value the running thread has just learned (e.g. the result of a read) into its state hash.
+func (s *S) Observe(v uint64) {
+	if s.cur != nil {
+		s.cur.obs = mix(s.cur.obs, v)
+	}
+}
+
+// Key describes the scheduler's part of the state: per thread its position, observation hash and
+// status; channel queues. Shared objects of the harness (simulated pipes) are appended by the caller.
+func (s *S) Key() string {
+	var b strings.Builder
+	for _, t := range s.threads {
+		fmt.Fprintf(&b, "%d:%d:%x:%v:%s|", t.id, t.pc, t.obs, t.done, t.waiting)
+	}
+	keys := make([]string, 0, len(s.chanQ))
+	for _, q := range s.chanQ {
+		keys = append(keys, fmt.Sprint(q))
+	}
+	sort.Strings(keys)
+	b.WriteString(strings.Join(keys, ";"))
+	return b.String()
+}
+
 // pause hands control back to the scheduler; the calling thread continues when chosen again.
 func (s *S) pause(t *thread) {
+	t.pc++
+	t.obs = mix(t.obs, uint64(len(t.waiting)))
 	s.yield <- struct{}{}
 	<-t.resume
 }
